@@ -23,12 +23,12 @@ ASSUMPTIONS = ["integer-valued inputs with partial sums < 2^24 so float32 reduct
 RULE = ("kernel x shape class {degenerate (1x1), tiny, non-multiple-of-threads, large (>1e5 iterations)} x dtype {uint8,float32}: sweep of (threads, chunksize) x R; "
         "non-trivial = shape has more iterations than 1; distinct = distinct (kernel, shape, dtype, config)")
 KERNELS = ("extract_tim", "extract_bpass", "mask_channels", "dedisperse", "subband", "remove_zerodm", "invert_freq", "moments", "moments_basic",
-           "downsample_1d_par", "downsample_2d_par")
+           "downsample_1d_par", "downsample_2d_par", "moments_cont", "moments_basic_cont")
 SHAPES = {"degenerate": (1, 1), "tiny": (3, 5), "odd": (37, 13), "large": (20011, 8), "wide": (257, 512), "chan1300": (300, 1300)}
 
 
 def REQUIRED(tier):
-    return [f"kernel:{k}" for k in KERNELS] + ["configs_run", "probe_runs", "probe_wrong", "canary_audits", "pyfunc_checks", "shape:large", "shape:degenerate", "affinity_pinned_cases", "kernel:lib_subband", "shape:chan1300", "kernel:lib_push_data"]
+    return [f"kernel:{k}" for k in KERNELS] + ["configs_run", "probe_runs", "probe_wrong", "canary_audits", "pyfunc_checks", "shape:large", "shape:degenerate", "affinity_pinned_cases", "kernel:lib_subband", "shape:chan1300", "kernel:lib_push_data", "kernel:lib_downsample", "kernel:moments_cont"]
 
 
 def EXTRA_COVERAGE(tier, tot):
@@ -57,6 +57,8 @@ def cases(tier, seed):
     yield {"kernel": "probe", "reps": reps, "seed": int(seed) * 1009 + 7000, "tier": tier, "affinity": 2}
     for i, (nch, mode) in enumerate([(1, "full"), (2, "full"), (4, "full"), (8, "full"), (1, "basic"), (3, "basic")]):
         yield {"kernel": "lib_push_data", "nchans": nch, "mode": mode, "seed": int(seed) * 1009 + 9000 + i, "tier": tier}
+    for i, tf in enumerate((3, 4, 5, 7)):
+        yield {"kernel": "lib_downsample", "tfactor": tf, "seed": int(seed) * 1009 + 9100 + i, "tier": tier}
     for nch in (9, 10, 12, 16):
         yield {"kernel": "lib_subband", "nchans": nch, "reps": reps, "seed": int(seed) * 1009 + 9000 + nch, "tier": tier}
 
@@ -135,6 +137,16 @@ def _build(kern, ns, nch, dt, rng, fr):
             else:
                 fn(flat, mom, 0)
         return call, (lambda: mom), {"two_pass": refmodels.moments_two_pass(Xf), "full": kern == "moments"}, None, None
+    if kern in ("moments_cont", "moments_basic_cont"):
+        # a fresh (zeroed) record fed with the continuation flag set (per-segment statistics): whatever the extrema mean then, the record
+        # must not depend on how the channel axis was shared out among threads
+        mom = fr.like(np.zeros(nch, dtype=K.moments_dtype), "moments")
+        fn = K.compute_online_moments if kern == "moments_cont" else K.compute_online_moments_basic
+
+        def call():
+            mom[...] = np.zeros(nch, dtype=K.moments_dtype)
+            fn(flat, mom, 1)
+        return call, (lambda: mom), {"skip_definition": True}, None, None
     if kern == "downsample_1d_par":
         f = max(1, min(3, ns * nch))
         holder = {}
@@ -223,6 +235,46 @@ def _lib_subband(case, ctx):
         K.subband = orig
 
 
+def _lib_downsample(case, ctx):
+    """Filterbank.downsample over several reads: the product must be the same file for every thread count (and the whole-file decimation)."""
+    import tempfile
+
+    from sigpyproc.readers import FilReader
+    from vlib import sigfile
+
+    rng = np.random.default_rng([case["seed"], 31])
+    nch, N, tf = 8, 1000 + int(rng.integers(0, 50)), int(case["tfactor"])
+    d = tempfile.mkdtemp(prefix="c19d-", dir=ctx.tmp)
+    X = rng.integers(0, 200, size=(N, nch)).astype(np.uint8)
+    path = os.path.join(d, "in.fil")
+    sigfile.write_fil(path, X, 8, fch1=1500.0, foff=-10.0, tsamp=1e-3)
+    m = N // tf
+    want = np.trunc(X[: m * tf].astype(np.float64).reshape(m, tf, nch).mean(axis=1))
+    ref = None
+    for t in (1, 2, 3, 4, 6, 7, 8, 11, 12, 16):
+        for gulp in (64, 16384):
+            ctx.evaluated(); ctx.count("kernel:lib_downsample")
+            one = dict(case, config=[t, gulp])
+            out = os.path.join(d, f"o{t}_{gulp}.fil")
+            try:
+                sched.run_config(min(t, NUMBA_THREADS), 0, lambda: FilReader(path).downsample(tf, 1, out, gulp=gulp, quiet=True, description="v"))
+            except Exception as exc:  # noqa: BLE001
+                ctx.violation(f"kernel-raised:lib_downsample:{type(exc).__name__}@{exc_site(exc)}", f"threads={t} gulp={gulp}: {fmt_exc(exc)}", one)
+                return
+            dd, hl, raw = sigfile.parse_file(out)
+            if ref is None:
+                ref = raw
+                got = np.frombuffer(raw, dtype=np.uint8).astype(np.float64)
+                if got.size != want.size or np.any(np.abs(got.reshape(want.shape) - want) >= 1.0):
+                    ctx.violation("wrong-result:Filterbank.downsample", f"threads={t} gulp={gulp}: {got.size // nch} output samples for {N}/{tf}, or values off the group means", one)
+                    return
+            elif raw != ref:
+                ctx.violation("schedule-dependent:Filterbank.downsample", f"tfactor={tf}: the product written with {t} threads (gulp {gulp}) differs from the one written with 1 thread ({len(raw)} vs {len(ref)} data bytes)", one)
+                return
+            os.unlink(out)
+    ctx.nontrivial_case({"k": "lib_downsample", "tf": tf})
+
+
 def _lib_push(case, ctx):
     """ChannelStats.push_data as the library drives it (few channels, blocks of thousands of spectra, a first and a continuation block):
     the record must be bit-identical for every thread count and its extrema must be those of the data."""
@@ -267,6 +319,8 @@ def _run_case(case, ctx):
         return _lib_subband(case, ctx)
     if case["kernel"] == "lib_push_data":
         return _lib_push(case, ctx)
+    if case["kernel"] == "lib_downsample":
+        return _lib_downsample(case, ctx)
     rng = np.random.default_rng([case["seed"], 19])
     cfgs = sched.configs(case["tier"])
     reps = case["reps"]
@@ -306,7 +360,9 @@ def _run_case(case, ctx):
             if first is None:
                 first = (dg, out, (t, k))
                 # ---- against the definition
-                if isinstance(ref, dict):
+                if isinstance(ref, dict) and ref.get("skip_definition"):
+                    pass
+                elif isinstance(ref, dict):
                     tp = ref["two_pass"]
                     n = ns
                     bad = None
